@@ -105,6 +105,26 @@ func scriptLabels(sc mux.Script, r *mux.E1Result) []string {
 		if r.TargetGrew {
 			ls = append(ls, "targetGrew")
 		}
+		switch {
+		case r.Completed >= 1000:
+			ls = append(ls, "segments>=1000")
+		case r.Completed >= 200:
+			ls = append(ls, "segments:200-999")
+		case r.Completed >= 50:
+			ls = append(ls, "segments:50-199")
+		case r.Completed >= 10:
+			ls = append(ls, "segments:10-49")
+		default:
+			ls = append(ls, "segments<10")
+		}
+		switch {
+		case r.Slides >= 100:
+			ls = append(ls, "windowSlides>=100")
+		case r.Slides >= 10:
+			ls = append(ls, "windowSlides:10-99")
+		case r.Slides >= 1:
+			ls = append(ls, "windowSlides:1-9")
+		}
 		if r.RejectedForSize {
 			ls = append(ls, "rejectedForSize")
 		}
